@@ -721,3 +721,47 @@ def arm_label(arm):
                 go(v)
     go(arm.get("pat"))
     return "(%s)" % ",".join(names[:4]) if names else "(_)"
+
+
+# ---- inventory of element-dropping iterator adaptors ---------------------------------------------------------------------------
+
+DROP_ADAPTORS = {"filter", "filter_map", "skip", "take", "skip_while", "take_while", "step_by", "find", "find_map", "nth", "last",
+                 "dedup", "unique", "position", "retain", "truncate", "drain", "split_off", "split_first", "split_last", "first"}
+
+
+def adaptor_sites(facts, crate, key_pred):
+    """{(function key, adaptor): [(body, line)]} for std / itertools adaptors that can drop or pick elements"""
+    seen = {}
+    for key, b in sorted(facts.bodies(crate).items()):
+        if b.thir is None or "{" in key or not key_pred(key):
+            continue
+        for t in thir_all(facts, b):
+            for c in calls(t):
+                fn = str(c.get("fn", ""))
+                ad = fn.split("::")[-1]
+                if ad in DROP_ADAPTORS and ("Iterator" in fn or "Itertools" in fn or "iter::" in fn or "Vec<" in fn or "slice" in fn
+                                            or "vec::" in fn or "[T]" in fn):
+                    seen.setdefault((key, ad), []).append((b, c.get("ln")))
+    return seen
+
+
+def adaptor_inventory(ck, R, facts, crate, key_pred, audit, what, floor=0, short_key=lambda k: k):
+    """K6-style: every element-dropping adaptor in the selected functions is in `audit` {(short key, adaptor): (max count, reason)}.
+    The detector's own sight is checked on every run against a function known to contain such an adaptor (positive control)."""
+    ctrl = adaptor_sites(facts, "chalk_solve", lambda k: k == "chalk_solve::clauses::program_clauses_for_env")
+    if not any(ad == "filter" for (_k, ad) in ctrl):
+        ck.violation(R, "positive-control", "", "the adaptor detector no longer sees the `filter` in program_clauses_for_env: it has gone blind")
+    seen = adaptor_sites(facts, crate, key_pred)
+    total = 0
+    for (key, ad), sites in sorted(seen.items()):
+        sk = short_key(key)
+        inst = "%s:%s" % (sk, ad)
+        total += len(sites)
+        if (sk, ad) in audit and len(sites) <= audit[(sk, ad)][0]:
+            ck.ok(R, inst, audit[(sk, ad)][1][:140])
+        else:
+            b, ln = sites[-1]
+            ck.violation(R, inst, b.where(ln), "%d use(s) of `.%s(..)` (audited: %d): %s; an adaptor that drops elements needs an audit "
+                         "entry with its reason" % (len(sites), ad, audit.get((sk, ad), (0, ""))[0], what))
+    ck.floor(R, "audited-adaptor-sites", total, floor)
+    return seen
